@@ -177,3 +177,7 @@ def run(res, facts, tier):
     c08_surrogate.run_rule(res, facts, tier)
     from . import c08_url
     c08_url.run_rule(res, facts, tier)
+    from . import c08_transcode
+    c08_transcode.run_rule(res, facts, tier)
+    from . import c04_stream
+    c04_stream.run_c08_rule(res, facts, tier)
